@@ -192,7 +192,7 @@ func (e bfdEv) String() string {
 	if e.Discard != "" {
 		d = " discard:" + e.Discard
 	}
-	return fmt.Sprintf("recv(%v tx=%dus mult=%d%s)", e.State, e.TxUs, e.Mult, d)
+	return fmt.Sprintf("recv(%v tx=%dus rx=%dus mult=%d%s)", e.State, e.TxUs, e.RxUs, e.Mult, d)
 }
 
 const (
@@ -283,7 +283,7 @@ func runHistory(evs []bfdEv, sticky bool, lab map[string]int) (fail string, s *b
 	synctest.Wait()
 	model := layers.BFDStateDown
 	var deadline time.Time
-	lastRx := time.Duration(0) // the pace the peer last asked for
+	lastRx := time.Duration(0) // the slowest pace the peer asked for during the history: a transmission timer armed under it may still be pending
 	start := time.Now()
 	for i, e := range evs {
 		if e.Kind == "recv" {
@@ -305,7 +305,7 @@ func runHistory(evs []bfdEv, sticky bool, lab map[string]int) (fail string, s *b
 					}
 				}
 				deadline = time.Now().Add(time.Duration(e.Mult) * max(reqRx, time.Duration(e.TxUs)*time.Microsecond))
-				lastRx = time.Duration(e.RxUs) * time.Microsecond
+				lastRx = max(lastRx, time.Duration(e.RxUs)*time.Microsecond)
 				if e.RxUs > 1000000 {
 					lab["peer_asks_slow_pace"]++
 				}
